@@ -7,7 +7,7 @@
    mass) is Model/FIT.v.  F is ANY field with 1+1 <> 0 (R, C, Q, ...). *)
 From Coq Require Import ZArith Bool Field.
 From V Require Import Base.Loops Base.Loops3 Base.Arr Base.FieldSig.
-From V Require Import Gen.CoreAmat Model.FIT Proofs.AmatFIT.
+From V Require Import Gen.CoreAmat Model.FIT Proofs.AmatFIT Proofs.AmatSym.
 Local Open Scope Z_scope.
 
 Section C02.
@@ -74,6 +74,23 @@ Section C02.
   Proof. exact (curlcurl_kills_gradients Fth two_nz phi hx hy hz hx_nz hy_nz hz_nz zeta i j k). Qed.
 End C02.
 
+(* The operator is (complex-)symmetric: for fields e, g with vanishing tangential
+   boundary values, <A e, g> = <e, A g> over all edges (bilinear, no
+   conjugation), for every shape, all widths and coefficients.  [edge_dot] sums
+   over all x-, y- and z-edges; [pec] says the tangential boundary values vanish.
+   Together with [amat_eq_fit] (the kernel subtracts exactly A e) this is the
+   symmetry of the matrix-free operator. *)
+Theorem operator_is_symmetric {F : Type} {O : FOps F}
+        (Fth : field_theory F0 F1 Fadd Fmul Fsub Fopp Fdiv Finv (@eq F))
+        (eta_x eta_y eta_z zeta : Z -> Z -> Z -> F) (hx hy hz : Z -> F) (nx ny nz : Z)
+        (ex ey ez gx gy gz : Z -> Z -> Z -> F) :
+  0 <= nx -> 0 <= ny -> 0 <= nz -> pec nx ny nz ex ey ez -> pec nx ny nz gx gy gz ->
+  edge_dot nx ny nz (A_x ex ey ez eta_x zeta hx hy hz) (A_y ex ey ez eta_y zeta hx hy hz)
+           (A_z ex ey ez eta_z zeta hx hy hz) gx gy gz
+  = edge_dot nx ny nz (A_x gx gy gz eta_x zeta hx hy hz) (A_y gx gy gz eta_y zeta hx hy hz)
+             (A_z gx gy gz eta_z zeta hx hy hz) ex ey ez.
+Proof. intros Hx Hy Hz. exact (amat_symmetric Fth eta_x eta_y eta_z zeta hx hy hz nx ny nz Hx Hy Hz ex ey ez gx gy gz). Qed.
+
 Print Assumptions amat_eq_fit.
 Print Assumptions fit_interior_x.
 Print Assumptions fit_interior_y.
@@ -82,3 +99,4 @@ Print Assumptions fit_boundary_x.
 Print Assumptions fit_boundary_y.
 Print Assumptions fit_boundary_z.
 Print Assumptions curlcurl_annihilates_gradients.
+Print Assumptions operator_is_symmetric.
